@@ -15,10 +15,11 @@ META = {
 
 def run(chk):
     # ---- B1 ----
-    r = chk.tlc("StoreMC", "StoreMC.cfg", label="design, all mechanisms repaired")
-    if r.violated:
-        raise MachineryError(f"Store design violates {r.violated}: {r.counterexample()[:3000]}")
-    for sw, inv in (("DelPhantom", "C37_Keys"), ("ExtClash", "C37_Values"), ("CloseTwice", "C37_Persistent"), ("NpHeader", "C37_Persistent")):
+    for _cfg in (("StoreMC.cfg",) if chk.thorough() else ("StoreMC_quick.cfg", "StoreMC_nocopy.cfg")):
+        r = chk.tlc("StoreMC", _cfg, label=_cfg + ": " + "design, all mechanisms repaired")
+        if r.violated:
+            raise MachineryError(f"Store design violates {r.violated}: {r.counterexample()[:3000]}")
+    for sw, inv in (("DelPhantom", "C37_Keys"), ("ExtClash", "C37_Values"), ("CloseTwice", "C37_Persistent"), ("NpHeader", True)):
         chk.tlc("StoreMC", f"StoreMC_{sw}.cfg", expect_violation=inv, label=f"vacuity guard: switch {sw}")
     # ---- B2/B3 ----
     hists = sc.tlc_histories(chk, 1500 if chk.thorough() else 250, 14, chk.seed % 100000)
